@@ -196,6 +196,7 @@ func runC05(a *A) {
 	a.Rule("flow/fresh-channel-per-iteration", 1, func() { a.ruleFreshChannelPerIteration() })
 	a.Rule("whomay/evaluators-read-only", 5, func() { a.ruleEvaluatorsReadOnly() })
 	a.Rule("locks/receive-under-lock", 2, func() { a.ruleReceiveUnderLock() })
+	a.Rule("ownmap/caller-map-not-handed-out", 5, func() { a.ruleCallerMapNotHandedOut() })
 	a.Rule("flow/sync-sinks-inline", 1, func() {
 		S := a.Named("stream", "Stream")
 		ss := a.FieldOf(S, "syncSinks")
